@@ -64,7 +64,7 @@ REJECT_LABELS = {"syntax", "type", "name", "index", "unresolvable", "malformed",
 
 
 def plan(tier, seed):
-    return [{"cmd": c, "part": i, "parts": 5} for c in ("path", "pointer", "patch") for i in range(5)] + [{"cmd": c, "part": -1, "parts": 5, "encodings": True} for c in ("path", "pointer", "patch")] + [{"cmd": c, "part": -2, "parts": 5, "scale": True} for c in ("path", "pointer", "patch")] + [{"cmd": c, "part": -3, "parts": 5, "hyphens": True} for c in ("path", "pointer", "patch")] + [{"kind": "threads", "rounds": 6 if tier == "quick" else 40}]
+    return [{"cmd": c, "part": i, "parts": 5} for c in ("path", "pointer", "patch") for i in range(5)] + [{"cmd": c, "part": -1, "parts": 5, "encodings": True} for c in ("path", "pointer", "patch")] + [{"cmd": c, "part": -2, "parts": 5, "scale": True} for c in ("path", "pointer", "patch")] + [{"cmd": c, "part": -3, "parts": 5, "hyphens": True} for c in ("path", "pointer", "patch")] + [{"kind": "threads", "rounds": 6 if tier == "quick" else 40}, {"kind": "terminal"}]
 
 
 class Files:
@@ -272,6 +272,82 @@ def check(ctx, files, cmd, label, expr, doc_ok, opts, use_subprocess, repo, doc_
         ctx.sample({"argv": argv, "exit": status, "stdout": out[:80], "stderr": err[:100], "mode": mode})
 
 
+def run_cli_on_a_terminal(argv, stdin_text, repo):
+    """The tool as a child process whose standard output is a (pseudo-)terminal, as when a person runs it in a shell.
+    Returns (exit status, what appeared on the terminal with the line discipline's CR-LF undone, stderr text)."""
+    import pty
+
+    env = dict(os.environ)
+    env["PYTHONPATH"] = repo
+    master, slave = pty.openpty()
+    try:
+        p = subprocess.Popen([sys.executable, "-B", "-m", "jsonpath"] + argv, stdin=subprocess.PIPE, stdout=slave, stderr=subprocess.PIPE, env=env, cwd=repo)
+    finally:
+        os.close(slave)
+    chunks = []
+    import threading
+
+    def pump():
+        while True:
+            try:
+                b = os.read(master, 65536)
+            except OSError:
+                break
+            if not b:
+                break
+            chunks.append(b)
+    t = threading.Thread(target=pump, daemon=True)
+    t.start()
+    try:
+        _o, err = p.communicate((stdin_text or "").encode("utf-8"), timeout=60)
+    finally:
+        t.join(10)
+        os.close(master)
+    out = b"".join(chunks).decode("utf-8", "replace").replace("\r\n", "\n")
+    return p.returncode, out, err.decode("utf-8", "replace")
+
+
+def run_terminal(ctx):
+    """Results with non-ASCII text, astral characters and a lone surrogate, printed to a terminal: the tool must write the
+    same JSON serialisation it writes anywhere else."""
+    from rt.harness import REPO, VERIF
+
+    try:
+        import pty
+
+        a_, b_ = pty.openpty()
+        os.close(a_)
+        os.close(b_)
+    except Exception as e:  # noqa: BLE001
+        ctx.notes.append("no pseudo-terminal available here (%s): the terminal class did not run" % type(e).__name__)
+        ctx.count("terminal_class_skipped_no_pty")
+        return
+    tmp = os.path.join(VERIF, "out", "C18", "tmp-terminal")
+    shutil.rmtree(tmp, ignore_errors=True)
+    files = Files(tmp)
+    try:
+        docs = ['{"a": "caf\u00e9", "b": ["\u65e5\u672c", "\ud83d\ude00"], "n": 1}', '{"a": "plain", "b": [1, 2], "n": 1}', '{"a": "\ud83d", "b": ["x"], "n": 1}', json.dumps({"a": "é", "b": ["日本"], "n": 1}, ensure_ascii=False)]
+        for dt in docs:
+            for cmd, expr in (("path", "$..*"), ("path", "$.a"), ("pointer", "/a"), ("pointer", ""), ("pointer", "/b/0"), ("patch", [{"op": "add", "path": "/new", "value": "\u00fc"}]), ("patch", [])):
+                for pretty in (False, True):
+                    opts = {"debug": False, "pretty": pretty, "no_unicode_escape": False, "expr_file": False, "doc_stdin": False, "out_file": False, "no_type_checks": False, "uri_decode": False}
+                    expr_text = expr if isinstance(expr, str) else json.dumps(expr)
+                    want = library_outcome(cmd, expr_text, dt, opts)
+                    if want[0] != "ok":
+                        continue
+                    argv = (["--pretty"] if pretty else []) + [cmd] + ([files.write(expr_text)] if cmd == "patch" else ["-q" if cmd == "path" else "-p", expr_text]) + ["-f", files.write(dt)]
+                    status, out, err = run_cli_on_a_terminal(argv, None, REPO)
+                    ctx.evaluation()
+                    ctx.case(h("terminal", cmd, expr_text, dt, pretty), True)
+                    ctx.count("invocations_with_standard_output_on_a_terminal")
+                    expected = json.dumps(want[1], indent=2 if pretty else None)
+                    if status != 0 or out != expected:
+                        ctx.violation("cli-on-a-terminal-differs-from-the-library's-serialisation:%s" % cmd, {"kind": "terminal"}, {"argv": [a if not a.startswith(tmp) else "<file>" for a in argv], "document": dt[:120], "status": status, "terminal": out[:300], "expected": expected[:300], "stderr": err[-300:]})
+                        return
+    finally:
+        shutil.rmtree(tmp, ignore_errors=True)
+
+
 def run_threads(ctx, rounds):
     """Invocations of the three sub-commands running at the same time in one process (a server or a test runner driving
     the tool's own parser and handlers from several threads), with injected yields inside the tool and the library.
@@ -389,6 +465,9 @@ def run(spec, ctx):
     r = ctx.rng
     if spec.get("kind") == "threads":
         run_threads(ctx, spec["rounds"])
+        return
+    if spec.get("kind") == "terminal":
+        run_terminal(ctx)
         return
     cmd = spec["cmd"]
     tmp = os.path.join(VERIF, "out", "C18", "tmp-%s-%d" % (cmd, spec["part"]))
@@ -517,6 +596,9 @@ def replay(case, ctx):
 
     if case.get("kind") == "threads":
         run_threads(ctx, 20)
+        return
+    if case.get("kind") == "terminal":
+        run_terminal(ctx)
         return
     tmp = os.path.join(VERIF, "out", "C18", "tmp-replay")
     files = Files(tmp)
